@@ -253,3 +253,58 @@ def gen_design(rng, cfg, tier="quick", **kw):
         if ast is not None:
             return ast
     return gen_cross_design(rng, cfg, tier, **kw)
+
+
+def add_continuous(rng, ast, nmax=2, with_constraint=True):
+    """Append 1..nmax continuous factors (and maybe a ContinuousConstraint) to a cross/multicross design in place."""
+    blk = ast["block"]
+    if blk["kind"] not in ("cross", "multicross"):
+        return ast
+    fb = {f["id"]: f for f in ast["factors"]}
+    discrete = [i for i in blk["design"] if fb[i]["kind"] == "basic"]
+    conts = []
+    n = rng.randint(1, nmax)
+    for j in range(n):
+        kind = rng.choice(["uniform", "gauss", "exp", "lognormal", "custom", "custom", "custom"])
+        name = "K%d" % j
+        if kind == "uniform":
+            d = {"kind": "uniform", "lo": 0.0, "hi": rng.choice([1.0, 10.0])}
+        elif kind == "gauss":
+            d = {"kind": "gauss", "mu": 0.0, "sigma": 1.0}
+        elif kind == "exp":
+            d = {"kind": "exp", "rate": 1.0}
+        elif kind == "lognormal":
+            d = {"kind": "lognormal", "mu": 0.0, "sigma": 0.5}
+        else:
+            deps = []
+            if discrete and rng.random() < 0.6:
+                fid = rng.choice(discrete)
+                deps.append({"factor": fid, "coef": rng.choice([1.0, 2.0]),
+                             "map": {n_: float(i + 1) for i, (n_, _) in enumerate(fb[fid]["levels"])}})
+            if conts and rng.random() < 0.6:
+                deps.append({"factor": rng.choice(conts)["id"], "coef": rng.choice([1.0, -1.0, 0.5])})
+            if conts and rng.random() < 0.5:
+                width = rng.choice([1, 2, 3])
+                start = rng.choice([None, None, 0, width, width + 1])
+                deps.append({"window": {"factors": [c["id"] for c in rng.sample(conts, rng.randint(1, min(2, len(conts))))],
+                                        "width": width, "stride": rng.choice([1, 1, 2]), "start": start},
+                             "weights": [float(rng.choice([1, 2])) for _ in range(width)], "coef": 1.0})
+            d = {"kind": "custom", "base": float(rng.choice([0, 1, 5])), "deps": deps,
+                 "cumulative": rng.random() < 0.3, "noise": None if deps else [0.0, 1.0]}
+        f = {"id": "k%d" % j, "kind": "continuous", "name": name, "dist": d}
+        conts.append(f)
+    ast["factors"].extend(conts)
+    # continuous factors go anywhere in the declared design order
+    for f in conts:
+        blk["design"].insert(rng.randint(0, len(blk["design"])), f["id"])
+    # keep dependency order among continuous factors (the constructor demands it)
+    order = [f["id"] for f in conts]
+    pos = sorted(blk["design"].index(i) for i in order)
+    for p, i in zip(pos, order):
+        blk["design"][p] = i
+    if with_constraint and rng.random() < 0.5:
+        fs = rng.sample(conts, min(len(conts), rng.choice([1, 2])))
+        blk["constraints"].append({"id": "cc0", "kind": "ccons", "factors": [f["id"] for f in fs],
+                                   "pred": rng.choice([{"op": "sum_lt", "c": rng.choice([1000.0, 50.0])}, {"op": "sum_gt", "c": rng.choice([-1000.0, -50.0])},
+                                                       {"op": "sum_lt", "c": rng.choice([1000.0, 3.0])}])})
+    return ast
